@@ -169,6 +169,11 @@ type evaluatedImport struct {
 	path  string
 }
 
+type importedStatement struct {
+	statement Statement
+	addCode   bool // Tells if the statement still has to be added to the program.
+}
+
 type evaluatedValues struct {
 	values []Expression
 }
@@ -200,11 +205,13 @@ type Parser struct {
 	currTypes []ValueType         // Stores the return types of the function which is currently being parsed.
 	usedFuncs map[string][]string // Stores which function (key) calls which functions (values).
 	importing []string            // Stores the files whose imports are currently being evaluated.
+	included  map[string]bool     // Stores the files (by prefix) whose code is already part of the program (shared with the import parsers).
 }
 
 func New() Parser {
 	return Parser{
 		usedFuncs: map[string][]string{},
+		included:  map[string]bool{},
 	}
 }
 
@@ -673,7 +680,7 @@ func (p *Parser) evaluateProgram() (Program, error) {
 
 func (p *Parser) evaluateImports(ctx context) ([]Statement, error) {
 	var nextToken lexer.Token
-	statementsTemp := []Statement{}
+	statementsTemp := []importedStatement{}
 
 	// Skip empty characters.
 	for {
@@ -746,6 +753,7 @@ func (p *Parser) evaluateImports(ctx context) ([]Statement, error) {
 			}
 			importParser := New()
 			importParser.importing = append(slices.Clone(p.importing), p.path)
+			importParser.included = p.included
 			importedProg, err := importParser.parse(absPath, true)
 
 			if err != nil {
@@ -760,7 +768,13 @@ func (p *Parser) evaluateImports(ctx context) ([]Statement, error) {
 			if err != nil {
 				return nil, err
 			}
-			statementsTemp = append(statementsTemp, importedProg.Body()...)
+			// A file which is reached several times is known to every importer but its code is only added once.
+			firstTime := !p.included[importParser.prefix]
+			p.included[importParser.prefix] = true
+
+			for _, statement := range importedProg.Body() {
+				statementsTemp = append(statementsTemp, importedStatement{statement, firstTime})
+			}
 
 			// Import-parser funcs with current parser funcs.
 			for funcName, usedFuncs := range importParser.usedFuncs {
@@ -796,7 +810,8 @@ func (p *Parser) evaluateImports(ctx context) ([]Statement, error) {
 	statements := []Statement{}
 
 	// Add functions add variables.
-	for _, statement := range statementsTemp {
+	for _, imported := range statementsTemp {
+		statement := imported.statement
 		exists := false
 
 		switch statement.StatementType() {
@@ -820,7 +835,7 @@ func (p *Parser) evaluateImports(ctx context) ([]Statement, error) {
 		}
 
 		// Prevent code duplication.
-		if !exists {
+		if !exists && imported.addCode {
 			statements = append(statements, statement)
 		}
 	}
